@@ -420,6 +420,9 @@ pub fn gen_texts(tier: &str, seed: u64) -> Vec<String> {
             v.push(d);
         }
     }
+    // volume: large well-formed documents (a behaviour that only starts after N paragraphs, N
+    // fields, N value lines or N comment lines: caches, limits, buffered recovery)
+    v.extend(large_docs());
     // every truncation of the repo's benchmark excerpt
     if let Ok(src) = std::fs::read_to_string("/repo/bench/Sources") {
         let ex: String = src.chars().take(if thorough { 6000 } else { 1500 }).collect();
@@ -430,6 +433,45 @@ pub fn gen_texts(tier: &str, seed: u64) -> Vec<String> {
             }
             i += if thorough { 1 } else { 3 };
         }
+    }
+    v
+}
+
+/// large well-formed documents as line lists: many paragraphs, many fields (distinct and repeated
+/// names), long values, long comment blocks, many blank lines between paragraphs
+pub fn large_line_docs() -> Vec<Vec<Line>> {
+    let mut docs = vec![];
+    for (np, nf, nl, nc, nb) in [(1usize, 1usize, 300usize, 0usize, 1usize), (1, 300, 0, 0, 1), (300, 1, 0, 0, 1), (40, 12, 3, 1, 2), (3, 3, 70, 70, 70), (130, 2, 1, 2, 1), (2, 260, 1, 0, 1)] {
+        let mut ls: Vec<Line> = vec![];
+        for p in 0..np {
+            if p > 0 {
+                for _ in 0..nb {
+                    ls.push(Line::Blank);
+                }
+            }
+            for c in 0..nc {
+                ls.push(Line::Comment(format!(" comment {} of paragraph {}", c, p)));
+            }
+            for f in 0..nf {
+                // every 7th field repeats the name of the first one (duplicates in file order)
+                let name = if f % 7 == 6 { "F0".to_string() } else { format!("F{}", f) };
+                ls.push(Line::Field(name, " ".into(), format!("v{}-{}", p, f)));
+                for l in 0..nl {
+                    ls.push(Line::Cont(if l % 2 == 0 { " ".into() } else { "\t ".into() }, format!("line {} of {}", l, f)));
+                }
+            }
+        }
+        docs.push(ls);
+    }
+    docs
+}
+
+pub fn large_docs() -> Vec<String> {
+    let mut v = vec![];
+    for ls in large_line_docs() {
+        let t: String = ls.iter().map(|l| format!("{}\n", l.text())).collect();
+        v.push(t.clone());
+        v.push(t.trim_end_matches('\n').to_string());
     }
     v
 }
@@ -498,6 +540,14 @@ pub fn generate_c03(tier: &str, seed: u64, out: &mut Out) {
                 emit(&ls, out);
             }
         }
+    }
+    // volume: large well-formed documents, and the same with one corrupt line near the end
+    for ls in large_line_docs() {
+        emit(&ls, out);
+        let mut bad = ls.clone();
+        let i = bad.len() - 1;
+        bad.insert(i, Line::Raw(docspec::BAD_LINES[0].to_string()));
+        emit(&bad, out);
     }
     // random well-formed documents + single-line corruptions
     let nr = if thorough { 400_000 } else { 30_000 };
